@@ -30,8 +30,8 @@ theorem inv_fwd_step (c : Cfg) (ar aq : Nat) (s : S) (h : Inv c ar aq s) (hrun :
     · have := hone hh; rw [ho] at this; cases this
     · exact ⟨hm.1, hm.2.1, hm.2.2.2.1, hm.2.2.1⟩
   have hps : c.oneway = false → s.pass = 0 := fun ho => h.k25 hcl ho hmain.2.1
-  obtain ⟨k0, k1, k2, k3, k4, k5, k6, k7, k8, k9, k10, k11, k12, k13, k14, k15, k16, k17, k18, k19, k20, k21, k22, k23, k24, k25, k26, k27, k28, k29, k30, k31, k32⟩ := h
-  refine ⟨k0, ?_, ?_, ?_, ?_, k5, k6, k7, ?_, k9, k10, k11, k12, ?_, k14, ?_, ?_, ?_, ?_, ?_, k20, ?_, k22, ?_, ?_, k25, ?_, ?_, k28, ?_, ?_, k31, ?_⟩
+  obtain ⟨k0, k1, k2, k3, k4, k5, k6, k7, k8, k9, k10, k11, k12, k13, k14, k15, k16, k17, k18, k19, k20, k21, k22, k23, k24, k25, k26, k27, k28, k29, k30, k31, k32, k33⟩ := h
+  refine ⟨k0, ?_, ?_, ?_, ?_, k5, k6, k7, ?_, k9, k10, k11, k12, ?_, k14, ?_, ?_, ?_, ?_, ?_, k20, ?_, k22, ?_, ?_, k25, ?_, ?_, k28, ?_, ?_, k31, ?_, (fun hh => absurd hh (by simp [hcl]))⟩
   · simpa [K1, ht1] using k1
   · simpa [K2, ht1] using k2
   · simpa [K3, ht1] using k3
@@ -300,7 +300,7 @@ theorem inv_work_oneway (c : Cfg) (ar aq : Nat) (s : S) (h : Inv c ar aq s) (hru
     rw [e, processError_spec]
     simp only [hcb.2, if_true]
     rw [reenter_end]
-    exact tail_clean c ar aq _ hcb.1 hcb.2 .End (cleanBody c s).pass (cleanBody c s).notify
+    exact tail_clean c ar aq _ hcb.1 hcb.2 (fun _ => Or.inr (Or.inr how)) .End (cleanBody c s).pass (cleanBody c s).notify
   · simp only [how, Bool.false_eq_true, if_false]
     simp only [Bool.not_eq_true] at how
     have hfwd : fwdPhase s.phase = true := by simp [hp, fwdPhase]
@@ -368,8 +368,8 @@ theorem inv_work_wait (c : Cfg) (ar aq : Nat) (s : S) (h : Inv c ar aq s) (hrun 
       simpa [hur, hdr] using this
     have h27 := h.k27 hcl hfwd hurr
     simp only [hur, Bool.false_eq_true, false_or] at h27
-    obtain ⟨k0, k1, k2, k3, k4, k5, k6, k7, k8, k9, k10, k11, k12, k13, k14, k15, k16, k17, k18, k19, k20, k21, k22, k23, k24, k25, k26, k27, k28, k29, k30, k31, k32⟩ := h
-    refine ⟨k0, k1, k2, k3, k4, k5, k6, k7, ?_, k9, k10, k11, k12, k13, k14, ?_, ?_, ?_, ?_, ?_, k20, k21, k22, ?_, k24, k25, ?_, ?_, ?_, ?_, ?_, k31, ?_⟩
+    obtain ⟨k0, k1, k2, k3, k4, k5, k6, k7, k8, k9, k10, k11, k12, k13, k14, k15, k16, k17, k18, k19, k20, k21, k22, k23, k24, k25, k26, k27, k28, k29, k30, k31, k32, k33⟩ := h
+    refine ⟨k0, k1, k2, k3, k4, k5, k6, k7, ?_, k9, k10, k11, k12, k13, k14, ?_, ?_, ?_, ?_, ?_, k20, k21, k22, ?_, k24, k25, ?_, ?_, ?_, ?_, ?_, k31, ?_, (fun hh => absurd hh (by simp [hcl]))⟩
     · intro _; exact ⟨(k8 hcl).1, Or.inr (Or.inl (by simp [hp, Phase.next, upPhase]))⟩
     · intro _ _
       refine ⟨h27.2, h27.1, hur, Or.inr hurr, ?_, ?_, ?_⟩
